@@ -41,7 +41,7 @@ Proof.
   (* if the mover is not inside a span before the step, no entry is its own *)
   assert (Hnot : in_span th = false -> forall i, ~ In (l_tid l, i) inspan).
   { intros Hns i Hin. destruct (HSp _ _ Hin) as (th0 & H0 & H1 & _). unfold thread_at in *. rewrite Ha in H0. inversion H0; subst. congruence. }
-  destruct (e_op e) as [| | | | | | | | |i|i| |] eqn:Eop;
+  destruct (e_op e) as [| | | | | | | | |i|i| | |] eqn:Eop;
     try (apply IH; auto; intros t i Hin;
          destruct (Nat.eq_dec t (l_tid l)) as [->|Hne]; [|apply Hkeep; auto];
          destruct (in_span th) eqn:Hsp; [destruct (S1 eq_refl) as ((j & Hj) & _); congruence|exfalso; eapply Hnot; eauto]; fail).
